@@ -29,11 +29,11 @@ type Term struct {
 	CB    bool
 	CS    string
 	// optional range knowledge for SInt terms (inclusive)
-	Lo, Hi *big.Int
-	Lin    *Lin    // linear form (SInt), see strs.go
-	Parts  []*Term // concatenation pieces (SString)
-	FromBV *Term   // for (bv2int FromBV) terms: the unsigned bit-vector this integer came from
-	SubOf  *Term   // for (str.substr SubOf SubLo n) terms built by StrSubstr
+	Lo, Hi       *big.Int
+	Lin          *Lin    // linear form (SInt), see strs.go
+	Parts        []*Term // concatenation pieces (SString)
+	FromBV       *Term   // for (bv2int FromBV) terms: the unsigned bit-vector this integer came from
+	SubOf        *Term   // for (str.substr SubOf SubLo n) terms built by StrSubstr
 	SubLo, SubHi *Term
 }
 
